@@ -61,6 +61,7 @@ package ice
 //@   loop 1 invariant C06 list-header-stable: a.checklist == old(a.checklist) && a.pairsByID == old(a.pairsByID)
 //@   site call setSelectedPair#1 assert C03 C06 reselects-only-the-superseded-selected-pair: a.getSelectedPair() == pair && arg1 == replacement && pair.Remote == oldRemote
 //@   site call replacePairRemote#1 assert C06 replaces-only-pairs-of-the-old-remote: arg0 == pair && pair.Remote == oldRemote && arg1 == newRemote
+//@   site call retargetKnownPairHolders#1 assert C06 C03 C20 everything-that-held-the-old-pair-is-pointed-at-its-replacement: arg1 == pair && arg2 == replacement
 //@   site call setRemotePriorityOverride#1 assert C06 C17 keeps-the-remote-priority-it-was-formed-with: arg0 == replacement && arg1 == oldRemotePriority
 //@   ensures C06 list-and-index-headers-stable: a.checklist == old(a.checklist) && a.pairsByID == old(a.pairsByID) && a.remoteCandidates == old(a.remoteCandidates)
 
@@ -104,6 +105,29 @@ package ice
 //@   props C06
 //@   opt nosafety
 //@   modifies fam:H_ice.candidateBase.lastSent*, fam:H_ice.candidateBase.lastReceived*
+//@   ghostvar considered bool = false
+//@   ghostvar srcHasR bool = false
+//@   ghostvar dstNoneR bool = false
+//@   ghostvar copiedR bool = false
+//@   ghostvar srcHasS bool = false
+//@   ghostvar dstNoneS bool = false
+//@   ghostvar copiedS bool = false
+//@   site call LastReceived#1 assert reads-the-activity-of-the-superseded-candidate: recv == src
+//@   site call LastReceived#1 ghost considered := true
+//@   site call IsZero#1 ghost srcHasR := !result
+//@   site call LastReceived#2 assert looks-whether-the-newcomer-has-activity-of-its-own: recv == dst
+//@   site call IsZero#2 ghost dstNoneR := result
+//@   site call setLastReceived#1 assert gives-the-newcomer-the-receive-stamp-of-the-superseded-candidate: arg0 == lastReceived
+//@   site call setLastReceived#1 ghost copiedR := true
+//@   site call LastSent#1 assert reads-the-send-stamp-of-the-superseded-candidate: recv == src
+//@   site call IsZero#3 ghost srcHasS := !result
+//@   site call LastSent#2 assert looks-whether-the-newcomer-has-sent-already: recv == dst
+//@   site call IsZero#4 ghost dstNoneS := result
+//@   site call setLastSent#1 assert gives-the-newcomer-the-send-stamp-of-the-superseded-candidate: arg0 == lastSent
+//@   site call setLastSent#1 ghost copiedS := true
+//@   ensures the-receive-stamp-moves-exactly-when-the-old-candidate-has-one-and-the-newcomer-none: considered ==> copiedR == (srcHasR && dstNoneR)
+//@   ensures the-send-stamp-moves-exactly-when-the-old-candidate-has-one-and-the-newcomer-none: considered ==> copiedS == (srcHasS && dstNoneS)
+//@   ensures every-candidate-of-this-package-can-take-the-stamps: dst != nil && dst.payload != nil ==> considered
 //@ func (*Agent).replaceRemoteInLocalCaches
 //@   props C06
 //@   opt nosafety
@@ -194,6 +218,9 @@ package ice
 //@ func (*Agent).checkKeepalive
 //@   props C06 C04
 //@   opt nosafety
+//@   ghostvar pinged bool = false
+//@   site call PingCandidate#1 ghost pinged := true
+//@   ensures the-selected-pair-is-pinged-whenever-keepalives-are-on: old(a.getSelectedPair()) != nil && a.keepaliveInterval != 0 ==> pinged
 //@   site call PingCandidate#1 assert pings-the-pair-that-is-selected-now: a.getSelectedPair() != nil && arg0 == a.getSelectedPair().Local && arg1 == a.getSelectedPair().Remote && a.keepaliveInterval != 0
 //@   ensures nothing-selected-nothing-sent: old(a.getSelectedPair()) == nil ==> unchangedExcept()
 //@ func (*controlledSelector).ContactCandidates
